@@ -5,12 +5,32 @@ import json
 from harness.engineprop import EngineProp, flat, parse_send
 
 
+def malformed_request(b):
+    """True when `b` claims to be a REQUEST_RESPONSE / FNF / STREAM / CHANNEL frame but is cut inside its fixed fields
+    (header, initial request-n, the 24-bit metadata length)"""
+    if len(b) < 6:
+        return False            # not even a header: nothing claims to be a request
+    ty = b[4] >> 2
+    if ty not in (4, 5, 6, 7):
+        return False
+    fixed = 6 + (4 if ty in (6, 7) else 0)
+    if len(b) < fixed:
+        return True
+    if b[4] & 0x01:             # metadata flag: a 24-bit length follows and must fit
+        rest = len(b) - fixed
+        if rest < 3:
+            return True
+        # (a metadata length larger than what follows is *accepted* by the library: slices clip, the handler sees the shorter
+        #  metadata — lenient, contained, and indistinguishable from a shorter valid frame on a message transport; not judged here)
+    return False
+
+
 class C12(EngineProp):
     id = 'C12'
     lean_modules = ['RSocketModel.Props.C12']
     profiles = ['hostile', 'hostile', 'legal']
     technique = 'Lean 4 proof (totality + locality of the engine step) + event-level differential correspondence on hostile frame sequences, and byte-level robustness runs'
-    level_text = ('c12_sends_local, c12_other_streams_untouched (for every well-formed state, received frame and handler behaviour), c12_handler_failure_contained, c12_probe_served and c12_total are kernel-checked on the engine model (the state invariant WF is proved preserved by every entry point); scripts mixing legal traffic with frames of any type on any stream and raising handlers are run against a real endpoint, replayed on the model, and followed by a probe request that must be answered.')
+    level_text = ('c12_sends_local, c12_other_streams_untouched (for every well-formed state, received frame and handler behaviour), c12_handler_failure_contained, c12_probe_served and c12_total are kernel-checked on the engine model (the state invariant WF is proved preserved by every entry point); scripts mixing legal traffic with frames of any type on any stream, raw messages (serialised frames as is, truncated, IGNORE-flagged and truncated, bit-flipped, unknown type, random bytes, empty — decoded on the model side by the codec model of C02 and then dispatched by the engine model) and raising handlers are run against a real endpoint, replayed on the model, and followed by a probe request that must be answered; an independent structural check requires that no message cut inside a request frame\'s fixed fields reaches a request handler.')
     level_note = 'Trusted: as C07; out-of-domain regions of the decoder are robustness-checked only.'
     design_ref = '§5 C12'
     rule = ('scripts mixing legal traffic with frames of any type on any stream (unknown, finished, live, 0), wrong types for the role, duplicate ids, fragments of a different type, '
@@ -54,6 +74,14 @@ class C12(EngineProp):
                         f = parse_send(t)
                         if f['sid'] != sid:
                             fails.append({'signature': 'error-on-other-stream', 'what': 'processing %s produced %s' % (m, t)})
+        # a message that is not a well-formed request frame must not reach a request handler (independent structural check:
+        # header, the type's fixed fields, and a metadata length that fits)
+        for idx, (m, outs) in enumerate(obs['steps']):
+            if m.startswith('RAW:'):
+                h = m.split(':')[1]
+                b = bytes.fromhex(h) if h != '-' else b''
+                if malformed_request(b) and any(t.startswith('HC:REQUEST_') for t in outs):
+                    fails.append({'signature': 'malformed-frame-dispatched', 'what': 'the undecodable message %s was handed to a request handler: %s' % (h, ' '.join(outs)[:120])})
         for i, m, t in flat(obs):
             if t.startswith('RA:EXC'):
                 fails.append({'signature': 'exception-reached-caller', 'what': 'step %d %s: %s' % (i, m, t)})
